@@ -147,6 +147,38 @@ def check_table(ctx, index):
     os.remove(path)
 
 
+def check_rewrite(ctx, index):
+    """The document at a path is replaced by another one of the same size and modification time (and then by something
+    that is no archive at all): every read must reflect what is at the path at that moment."""
+    from cutplace import errors, rowio
+
+    rng = ctx.rng("rewrite", index)
+    first = [[rng.choice("abcd") + rng.choice("xyz") for _ in range(rng.randint(1, 4))] for _ in range(rng.randint(1, 4))]
+    second = [[cell[::-1] if rng.random() < 0.5 else cell.upper() for cell in row] for row in first]
+    if second == first:
+        second[0][0] = "QQ"
+    path = os.path.join(ctx.tmp, "rewritten.ods")
+    case = {"first": first, "second": second, "what": "same path rewritten with equal size and modification time"}
+    ctx.case(case, True)
+    ctx.count("rewrites")
+    storage.write_ods(path, [first], stored=True)
+    stat = os.stat(path)
+    got_first = list(rowio.ods_rows(path, 1))
+    storage.write_ods(path, [second], stored=True)
+    same_size = os.stat(path).st_size == stat.st_size
+    os.utime(path, ns=(stat.st_atime_ns, stat.st_mtime_ns))
+    got_second = list(rowio.ods_rows(path, 1))
+    if got_first != first or got_second != second:
+        ctx.violation("C15:stale-read-after-rewrite", dict(case, same_size=same_size), "rows read do not reflect the document that is at the path now",
+                      expected=[first, second], observed=[got_first, got_second])
+    garbage = b"x" * stat.st_size
+    with open(path, "wb") as f:
+        f.write(garbage)
+    os.utime(path, ns=(stat.st_atime_ns, stat.st_mtime_ns))
+    expect_format_error(ctx, {"fault": "not-a-zip", "after": "a valid document of the same size and time at the same path"}, path, 1, "not-a-zip")
+    os.remove(path)
+
+
 def expect_format_error(ctx, case, path, sheet, kind, may_be_benign=False):
     from cutplace import errors, rowio
 
@@ -233,6 +265,9 @@ def run(ctx):
     for i in range(ctx.pick(6, 60)):
         if ctx.mine(i):
             check_faults(ctx, i)
+    for i in range(ctx.pick(60, 2000)):
+        if ctx.mine(i):
+            check_rewrite(ctx, i)
 
 
 def replay(ctx, case):
